@@ -1480,6 +1480,27 @@ pub fn run_transport(cfg: &TransportCfg, sc: &mut Sc) {
                 sc.viol("C09", format!("{}: read at receiving nonce 2^64-1 gave {o:?}", cfg.name));
             }
             check_nonces(sc, &dirs);
+            // rekeys of an exhausted direction (the specification's, then by hand on both sides): a rekey changes the
+            // key and nothing else, the direction stays exhausted (seed C05-N: a rekey rewound the counter to 0)
+            sc.ex.rekey(rd, "in");
+            sc.ex.rekey(w, "out");
+            check_nonces(sc, &dirs);
+            let k: [u8; 32] = r.bytes(32).try_into().unwrap();
+            let (ki, kr) = if d == 0 { (Some(&k), None) } else { (None, Some(&k)) };
+            sc.ex.rekey_manual(w, ki, kr);
+            sc.ex.rekey_manual(rd, ki, kr);
+            check_nonces(sc, &dirs);
+            sc.count("t.rekey_when_exhausted");
+            let o = sc.ex.t_write(w, b"later", 64);
+            if o.err() != Some("State(Exhausted)") {
+                sc.viol("C09", format!("{}: write at sending nonce 2^64-1 after rekeys gave {o:?}", cfg.name));
+            }
+            let o = sc.ex.t_read(rd, &[0xa5u8; 40], 64);
+            if o.err() != Some("State(Exhausted)") {
+                sc.viol("C09", format!("{}: read at receiving nonce 2^64-1 after rekeys gave {o:?}", cfg.name));
+                sc.viol("C05", format!("{}: an exhausted receiving direction took part in a read again after rekeys: {o:?}", cfg.name));
+            }
+            check_nonces(sc, &dirs);
         }
     }
     if oneway {
